@@ -423,3 +423,72 @@ func anchorContexts(f *ssa.Function, depth int) []*ssa.Function {
 	}
 	return out
 }
+
+// ---------------------------------------------------------------------------
+// R17.18: a terminal state is left only by Reset. The lifecycle tables map
+// closedState and errorState back to newState (that entry is what Reset relies
+// on), so a transition performed while the object is closed or failed re-opens
+// it: the next call initialises again and reads or writes a second frame.
+//  (a) a deferred transition (defer s.nextd(&err)) is registered only where the
+//      dispatch on the state word has already excluded closedState and errorState;
+//  (b) a direct transition (s.next(err)) is reached only with the state word
+//      known not to be closedState.
+// (For (b) errorState is not demanded: Writer.Close relies on Flush returning the
+// latched error first, which is outside what the value sets can see.)
+
+func ruleTerminalStatesStay(c *Check, p *Program, rule string) {
+	n := 0
+	for _, fn := range moduleFuncs(p, pkgRoot) {
+		rt := recvTypeName(fn)
+		if fn.Parent() != nil || (rt != "Reader" && rt != "Writer") {
+			continue
+		}
+		var sites []ssa.CallInstruction
+		for _, ci := range callsIn(fn) {
+			if _, isDefer := ci.(*ssa.Defer); isDefer && calleeIs(ci, pkgRoot, "_State.nextd") {
+				sites = append(sites, ci)
+			}
+			if _, isCall := ci.(*ssa.Call); isCall && calleeIs(ci, pkgRoot, "_State.next") {
+				sites = append(sites, ci)
+			}
+		}
+		if len(sites) == 0 {
+			continue
+		}
+		sv := stateLoadOf(fn)
+		for i, ci := range sites {
+			n++
+			c.Sites++
+			_, deferred := ci.(*ssa.Defer)
+			forbidden := vset{{5, 5}}
+			what := "closedState"
+			if deferred {
+				forbidden = vset{{1, 1}, {5, 5}}.norm()
+				what = "closedState or errorState"
+			}
+			key := fmt.Sprintf("%s#transition-not-in-terminal-state#%d", shortFn(fn), i+1)
+			desc := "a lifecycle transition is performed only where the state word is known not to be " + what + " (the tables map the terminal states back to newState for Reset: a transition there re-opens a finished or failed object)"
+			if sv == nil {
+				c.Fail(rule, key, p.InstrPos(ci), desc, "the method performs a transition without looking at the state word")
+				continue
+			}
+			at := fullSet(8)
+			svIn := sv.(ssa.Instruction)
+			// the site is judged with the values the dispatch lets through; a site that precedes the load of the
+			// state word sees every state
+			if ci.Block() != svIn.Block() || idxOf(ci) > idxOf(svIn) {
+				if s, ok := valueSetsAt(fn, sv, svIn.Block(), 8)[ci.Block()]; ok {
+					at = s
+				}
+				if ci.Block() == svIn.Block() {
+					at = fullSet(8)
+				}
+			}
+			got := at.intersect(forbidden)
+			c.Cond(len(got) == 0, rule, key, p.InstrPos(ci), desc, "state set at the site: "+at.String(), "the transition is reachable (or registered) with the state word in "+got.String()+": a closed or failed "+rt+" is moved back to newState by a plain call, and the next call starts another frame on the same stream")
+		}
+	}
+	if n < 5 {
+		c.Fail(rule, "lifecycle#transition-sites", "", "the transition sites of Reader and Writer are resolved", fmt.Sprintf("only %d calls of _State.next / deferred _State.nextd found (confirmed by reading: 7)", n))
+	}
+}
